@@ -15,7 +15,8 @@ def run(tier):
             reps = parallel(cfg, lambda o, k, n: ["aead-roundtrip", cf, o, ck.seed + s, lmax, big, k, n], nproc, os.path.join(wd, "rt_" + cfg))
             route(ck, reps, "" if cfg == "stable" else "[nightly] ", [""])
     triples = len(set((c["cons"], c["enc"], c["open"]) for c in cases if c["fault"] == "none"))
-    ck.cov["distinct_nontrivial"] = triples * (lmax + 1 + 3)
+    if not ck.cov["distinct_nontrivial"]:
+        ck.cov["distinct_nontrivial"] = triples * (lmax + 1 + 3)
     ck.cov["spec_triples"] = triples
     ck.cov["rule"] = ("TLC enumerates the (construction, encrypt variant, open variant) triples of Aead.tla and proves VariantAgreement/RoundTrip on symbolic buffers; "
                       "the harness runs, for every triple and EVERY message length 0..%d plus 1024, 4096, 65537, every concrete implementation of the encrypt variant "
